@@ -8,9 +8,18 @@
 //   size            format_size picks the right unit, prints a faithful mantissa, parse_size reads it back
 //   parse_size      parse_size on "I.F <unit>B" texts for every unit letter
 //   timeval         usecs_to_timeval / timeval_to_usecs are exact inverses
+//   time_seq        SEQUENCES of format_time calls on one (fresh) thread with related timestamps (same second, +-1 s, multiples
+//                   of 2^32 / 2^31 / 2^16 seconds, 2^32 us or ms, days, years apart), every result against the civil calendar
+//
+// Ambient state: the functions of this property are pure functions of their arguments, so the errno value the thread
+// happens to hold on entry (0, ERANGE, EINVAL, EILSEQ, EINTR, ... left by an unrelated earlier call) must not change any
+// result. The incoming errno is part of every duration / time / size / parse_size / time_seq case (trailing field, 0 when
+// absent) and is stored immediately before each call into phosg.
+#include <errno.h>
 #include <sys/time.h>
 
 #include <chrono>
+#include <thread>
 
 #include <phosg/Strings.hh>
 #include <phosg/Time.hh>
@@ -23,6 +32,16 @@ using c18::u128;
 
 static const uint64_t kBoundaries[4] = {1000000ULL, 60000000ULL, 3600000000ULL, 86400000000ULL};
 
+// ---------------------------------------------------------------- ambient errno
+
+static const uint64_t kErrnos[] = {0, ERANGE, EINVAL, EILSEQ, EINTR, EDOM, ENOENT, EAGAIN, ENOMEM, EOVERFLOW};
+static const size_t kNumErrnos = sizeof(kErrnos) / sizeof(kErrnos[0]);
+static inline uint64_t errno_for(uint64_t x) { return kErrnos[mix(x, 0xE884) % kNumErrnos]; } // deterministic rotation for the enumerators
+static inline uint64_t opt(const Case& c, size_t i) { return c.n.size() > i ? c.u(i) : 0; }
+static inline void ambient(uint64_t e) { errno = static_cast<int>(e); }
+static inline uint64_t gen_errno() { return vg::chance(1, 3) ? 0 : kErrnos[vg::below(kNumErrnos)]; }
+static std::string errno_note(uint64_t e) { return e ? cat(" [errno was ", e, " (", strerror(static_cast<int>(e)), ") on entry]") : std::string(); }
+
 // ---------------------------------------------------------------- duration
 
 // case: n = [usecs, precision (-1..6)]
@@ -30,14 +49,16 @@ static void run_duration(const Case& c) {
   uint64_t usecs = c.u(0);
   int64_t p = c.i(1);
   if (p < -1 || p > 6) throw std::logic_error("precision outside -1..6");
+  uint64_t en = opt(c, 2);
   std::string text;
   try {
+    ambient(en);
     text = phosg::format_duration(usecs, static_cast<int8_t>(p));
   } catch (const std::exception& e) {
-    VFAIL("duration-throws", "format_duration(", usecs, ", ", p, ") threw ", typeid(e).name(), ": ", e.what());
+    VFAIL("duration-throws", "format_duration(", usecs, ", ", p, ") threw ", typeid(e).name(), ": ", e.what(), errno_note(en));
   }
   int v = c18::check_duration(usecs, static_cast<int>(p), text.data(), text.size());
-  VCHECK(v == c18::DUR_OK, c18::verdict_name(v), "format_duration(", usecs, ", ", p, ") = \"", text, "\"");
+  VCHECK(v == c18::DUR_OK, c18::verdict_name(v), "format_duration(", usecs, ", ", p, ") = \"", text, "\"", errno_note(en));
   bool near = false;
   for (uint64_t b : kBoundaries) near |= (usecs + 1000 >= b && usecs <= b + 1000);
   if ((usecs >= 60000000ULL && p >= 0) || near) ctx().nontrivial_case();
@@ -52,14 +73,16 @@ static uint64_t sweep(Enum& e, const char* check, uint64_t lo, uint64_t hi, uint
     for (uint64_t u = lo; u < hi; u += stride) {
       n++;
       bool ok = false;
+      uint64_t en = errno_for(u + static_cast<uint64_t>(p + 1));
       try {
+        ambient(en);
         std::string text = phosg::format_duration(u, static_cast<int8_t>(p));
         ok = c18::check_duration(u, p, text.data(), text.size()) == c18::DUR_OK;
       } catch (const std::exception&) {
       }
       if (!ok) {
         // record the precise case through the full oracle; skip the rest of this block (same root cause)
-        e.exec_light(Case(check).N(u).I(p));
+        e.exec_light(Case(check).N(u).I(p).N(en));
         break;
       }
     }
@@ -97,7 +120,7 @@ static void enum_duration(Enum& e) {
   for (uint64_t b : kBoundaries) {
     for (uint64_t u = b - 3000; u <= b + 3000 && !e.stop; u++, idx++) {
       if (!e.mine(idx)) continue;
-      for (int p = -1; p <= 6; p++) e.exec(Case("duration").N(u).I(p));
+      for (int p = -1; p <= 6; p++) e.exec(Case("duration").N(u).I(p).N(errno_for(u * 8 + static_cast<uint64_t>(p + 1))));
     }
   }
   // stride-997 sweep of the +-2 s windows
@@ -105,7 +128,7 @@ static void enum_duration(Enum& e) {
     uint64_t lo = b >= 2000000ULL ? b - 2000000ULL : 0, hi = b + 2000000ULL;
     for (uint64_t u = lo; u <= hi && !e.stop; u += 997, idx++) {
       if (!e.mine(idx)) continue;
-      for (int p = -1; p <= 6; p++) e.exec(Case("duration").N(u).I(p));
+      for (int p = -1; p <= 6; p++) e.exec(Case("duration").N(u).I(p).N(errno_for(u * 8 + static_cast<uint64_t>(p + 1))));
     }
   }
   // every field combination once: d in {0,1,9,10,99,100}, h, m, s at their extremes, sub-second ties
@@ -117,13 +140,13 @@ static void enum_duration(Enum& e) {
         for (uint64_t s : {0ULL, 1ULL, 5ULL, 9ULL, 10ULL, 59ULL}) {
           for (uint64_t f : {0ULL, 1ULL, 499999ULL, 500000ULL, 500001ULL, 949999ULL, 950000ULL, 999499ULL, 999500ULL, 999999ULL}) {
             uint64_t u = ((d * 24 + h) * 60 + m) * 60000000ULL + s * 1000000ULL + f;
-            for (int p = -1; p <= 6; p++) e.exec(Case("duration").N(u).I(p));
+            for (int p = -1; p <= 6; p++) e.exec(Case("duration").N(u).I(p).N(errno_for(u * 8 + static_cast<uint64_t>(p + 1))));
           }
         }
       }
     }
   }
-  e.complete("every microsecond within +-3 ms of 1 s, 60 s, 3600 s, 86400 s; every 997th microsecond of the +-2 s windows; a grid of day/hour/minute/second/fraction extremes; all x precision -1..6");
+  e.complete("every microsecond within +-3 ms of 1 s, 60 s, 3600 s, 86400 s; every 997th microsecond of the +-2 s windows; a grid of day/hour/minute/second/fraction extremes; all x precision -1..6 (incoming errno rotating over 10 values)");
 }
 
 static Case gen_duration() {
@@ -156,7 +179,7 @@ static Case gen_duration() {
     default: u = vg::interesting64() >> 1; break;
   }
   if (u > (1ULL << 63)) u = 1ULL << 63;
-  return Case("duration").N(u).I(p);
+  return Case("duration").N(u).I(p).N(gen_errno());
 }
 
 #ifndef C18_SWEEP_ONLY
@@ -182,17 +205,19 @@ static void run_time(const Case& c) {
       throw std::logic_error(cat("harness: calendar references disagree on day ", days));
     }
   }
+  uint64_t en = opt(c, 1);
   std::string got;
   try {
+    ambient(en);
     got = phosg::format_time(t);
   } catch (const std::exception& e) {
-    VFAIL("time-throws", "format_time(", t, ") threw ", typeid(e).name(), ": ", e.what());
+    VFAIL("time-throws", "format_time(", t, ") threw ", typeid(e).name(), ": ", e.what(), errno_note(en));
   }
   if (got != want) {
     const char* clause = "time-date";
     if (got.size() >= 19 && want.compare(0, 19, got, 0, 19) == 0) clause = "time-microseconds";
     else if (got.size() >= 10 && want.compare(0, 10, got, 0, 10) == 0) clause = "time-clock";
-    VFAIL(clause, "format_time(", t, ") = \"", got, "\" expected \"", want, "\"");
+    VFAIL(clause, "format_time(", t, ") = \"", got, "\" expected \"", want, "\"", errno_note(en));
   }
   c18::Civil cv = c18::civil_from_days(static_cast<int64_t>(t / c18::kUsecPerDay));
   uint64_t sod = (t % c18::kUsecPerDay) / 1000000;
@@ -220,13 +245,15 @@ static void enum_time(Enum& e) {
         size_t len = c18::ref_format_time(t, buf, sizeof(buf));
         n++;
         bool ok = false;
+        uint64_t en = errno_for(t);
         try {
+          ambient(en);
           std::string got = phosg::format_time(t);
           ok = got.size() == len && memcmp(got.data(), buf, len) == 0;
         } catch (const std::exception&) {
         }
         if (!ok) {
-          e.exec_light(Case("time").N(t));
+          e.exec_light(Case("time").N(t).N(en));
           bad = true;
           break;
         }
@@ -243,7 +270,7 @@ static void enum_time(Enum& e) {
     for (int64_t d = first; d < first + (c18::is_leap(y) ? 366 : 365) && !e.stop; d++, idx++) {
       if (!e.mine(idx)) continue;
       for (uint64_t s : {0ULL, 59ULL, 3599ULL, 3600ULL, 43200ULL, 86399ULL})
-        e.exec(Case("time").N(static_cast<uint64_t>(d) * c18::kUsecPerDay + s * 1000000 + (mix(idx, s) % 1000000)));
+        e.exec(Case("time").N(static_cast<uint64_t>(d) * c18::kUsecPerDay + s * 1000000 + (mix(idx, s) % 1000000)).N(errno_for(idx * 8 + s)));
     }
   }
   e.complete("second 0, 59 and 86399 of every day 1970-01-01..9999-12-31 (microseconds 0 / 999999 / hashed); every day of 1970, 1972, 1999, 2000, 2001, 2038, 2100, 2400, 9999 x 6 times of day");
@@ -279,27 +306,180 @@ static Case gen_time() {
   }
   uint64_t us = vg::chance(1, 4) ? vg::pick<uint64_t>({0, 1, 9, 10, 99999, 100000, 999999}) : vg::below(1000000);
   if (day > static_cast<uint64_t>(c18::kLastDay)) day = c18::kLastDay;
-  return Case("time").N(day * c18::kUsecPerDay + sod * 1000000 + us);
+  return Case("time").N(day * c18::kUsecPerDay + sod * 1000000 + us).N(gen_errno());
+}
+
+// ---------------------------------------------------------------- format_time: sequences of calls on one thread
+//
+// format_time is a function of its argument: what it returned for earlier timestamps must not influence what it returns
+// now. A case is a sequence of timestamps formatted back to back on one thread - a FRESH thread, so that a case does not
+// depend on what earlier cases left behind (thread-local state included) and replays exactly. Consecutive timestamps are
+// related the way a memo, a truncated key or a reused buffer would confuse them: same second with other microseconds,
+// the same timestamp again, +-1 us / 1 s / 1 min / 1 h / 1 day / 365 days, and k x 2^16, 2^24, 2^31, 2^32 seconds,
+// k x 2^32 microseconds or milliseconds apart.
+// case: n = [incoming errno, t1, t2, ...]
+static const uint64_t kSec = 1000000ULL;
+static const uint64_t kSeqDeltas[] = {1, 999999, kSec, 60 * kSec, 3600 * kSec, 86400 * kSec, 365 * 86400 * kSec, 1ULL << 32, (1ULL << 32) * 1000,
+    (1ULL << 32) * kSec, (1ULL << 31) * kSec, (1ULL << 16) * kSec, (1ULL << 24) * kSec};
+static const size_t kNumSeqDeltas = sizeof(kSeqDeltas) / sizeof(kSeqDeltas[0]);
+static const size_t kSeqDelta2p32s = 9;
+
+static void run_time_seq(const Case& c) {
+  if (c.n.size() < 2 || c.n.size() > 65) throw std::logic_error("time_seq: 1..64 timestamps");
+  uint64_t en = c.u(0);
+  size_t n = c.n.size() - 1;
+  for (size_t i = 0; i < n; i++)
+    if (c.u(i + 1) >= kEndOfDomain) throw std::logic_error("timestamp beyond year 9999");
+  std::vector<std::string> got(n), threw(n);
+  std::thread th([&] {
+    for (size_t i = 0; i < n; i++) {
+      try {
+        ambient(en);
+        got[i] = phosg::format_time(c.u(i + 1));
+      } catch (const std::exception& e) {
+        threw[i] = cat(typeid(e).name(), ": ", e.what());
+        if (threw[i].empty()) threw[i] = "exception";
+      }
+    }
+  });
+  th.join();
+  bool step_2p32 = false, step_same_second = false, distinct_seconds = false;
+  for (size_t i = 0; i < n; i++) {
+    uint64_t t = c.u(i + 1);
+    char buf[64];
+    std::string want(buf, c18::ref_format_time(t, buf, sizeof(buf)));
+    auto history = [&]() {
+      std::string h;
+      for (size_t j = 0; j <= i; j++) h += cat(j ? ", " : "", c.u(j + 1));
+      return h;
+    };
+    VCHECK(threw[i].empty(), "time-seq-throws", "call #", i, " of the sequence format_time(", history(), ") threw ", threw[i], errno_note(en));
+    if (got[i] != want) {
+      std::string clause = "time-seq-date";
+      if (got[i].size() >= 19 && want.compare(0, 19, got[i], 0, 19) == 0) clause = "time-seq-microseconds";
+      else if (got[i].size() >= 10 && want.compare(0, 10, got[i], 0, 10) == 0) clause = "time-seq-clock";
+      // root-cause class: is it (the date/time part of) the answer to an earlier call of the sequence?
+      for (size_t j = 0; j < i && got[i].size() >= 19; j++) {
+        char bj[64];
+        c18::ref_format_time(c.u(j + 1), bj, sizeof(bj));
+        if (got[i].compare(0, 19, bj, 19) == 0 && want.compare(0, 19, bj, 19) != 0) {
+          clause += ":answer-to-an-earlier-call";
+          break;
+        }
+      }
+      VFAIL(clause, "call #", i, " of the sequence format_time(", history(), ") on one thread returned \"", got[i], "\" expected \"", want, "\"", errno_note(en));
+    }
+    if (i > 0) {
+      uint64_t a = c.u(i) / kSec, b = t / kSec;
+      uint64_t d = a > b ? a - b : b - a;
+      if (d != 0) distinct_seconds = true;
+      if (d != 0 && (d & 0xFFFFFFFFULL) == 0) step_2p32 = true;
+      if (d == 0 && c.u(i) != t) step_same_second = true;
+    }
+  }
+  if (distinct_seconds) ctx().nontrivial_case();
+  if (step_2p32) ctx().cls("time_seq:has-a-step-of-k*2^32-seconds");
+  if (step_same_second) ctx().cls("time_seq:has-a-same-second-step");
+}
+
+static uint64_t seq_step(uint64_t t, uint64_t d, bool up) {
+  if (up && t + d < kEndOfDomain) return t + d;
+  if (t >= d) return t - d;
+  if (t + d < kEndOfDomain) return t + d;
+  return t;
+}
+
+static void enum_time_seq(Enum& e) {
+  uint64_t idx = 0;
+  for (int64_t y : {1970, 1999, 2000, 2038, 2106, 2400, 5000, 9999}) {
+    for (int md = 0; md < 3; md++) {
+      int64_t day = md == 0 ? c18::days_from_civil_slow(y, 1, 1) : md == 1 ? c18::days_from_civil_slow(y, 3, 1) - 1 : c18::days_from_civil_slow(y, 12, 31);
+      for (uint64_t sod : {0ULL, 23296ULL, 86399ULL}) {
+        if (!e.mine(idx++)) continue;
+        uint64_t base = static_cast<uint64_t>(day) * c18::kUsecPerDay + sod * kSec + 654321;
+        for (size_t di = 0; di < kNumSeqDeltas && !e.stop; di++) {
+          uint64_t kmax = (di == kSeqDelta2p32s) ? 59 : 3;
+          for (uint64_t k = 1; k <= kmax; k++) {
+            for (int up = 0; up < 2; up++) {
+              uint64_t d = kSeqDeltas[di] * k;
+              if (up ? (base + d >= kEndOfDomain) : (base < d)) continue;
+              uint64_t other = up ? base + d : base - d;
+              // there and back, then the neighbouring microsecond of each
+              e.exec(Case("time_seq").N(errno_for(idx * 64 + di)).N(base).N(other).N(base).N(other ^ 1).N(base ^ 1));
+            }
+          }
+        }
+      }
+    }
+  }
+  e.complete("for 72 base timestamps (Jan 1, last day of February, Dec 31 of 1970, 1999, 2000, 2038, 2106, 2400, 5000, 9999 x 3 times of day): the sequence "
+             "t, t', t, t' xor 1us, t xor 1us for t' = t +- k x {1 us, 999999 us, 1 s, 1 min, 1 h, 1 day, 365 days, 2^32 us, 2^32 ms, 2^31 s, 2^16 s, 2^24 s} (k = 1..3) "
+             "and t +- k x 2^32 s for every k that stays inside 1970..9999");
+}
+
+static Case gen_time_seq() {
+  Case c("time_seq");
+  c.N(gen_errno());
+  uint64_t t = gen_time().u(0);
+  c.N(t);
+  size_t len = 1 + vg::below(10);
+  for (size_t i = 0; i < len; i++) {
+    uint64_t nt;
+    switch (vg::below(6)) {
+      case 0: nt = t / kSec * kSec + vg::below(kSec); break; // same second, other microseconds
+      case 1: nt = c.n[1 + vg::below(c.n.size() - 1)]; break; // a timestamp of the sequence again
+      default: {
+        uint64_t d = kSeqDeltas[vg::below(kNumSeqDeltas)] * (1 + (vg::chance(1, 3) ? vg::below(59) : vg::below(3)));
+        nt = seq_step(t, d, vg::coin());
+        if (vg::coin()) nt = nt / kSec * kSec + vg::below(kSec);
+        break;
+      }
+    }
+    c.N(nt);
+    t = nt;
+  }
+  return c;
 }
 
 // ---------------------------------------------------------------- format_size / parse_size
 
 static const char kUnitLetters[] = " KMGTPE";
 
+// parse_size on a text that denotes a representable size must return - whatever errno holds on entry
+static uint64_t parse_checked(const std::string& text, uint64_t en, const char* clause) {
+  try {
+    ambient(en);
+    return phosg::parse_size(text.c_str());
+  } catch (const std::exception& e) {
+    bool clean_ok = false; // attribution: does the same call return with errno = 0?
+    if (en) {
+      try {
+        ambient(0);
+        phosg::parse_size(text.c_str());
+        clean_ok = true;
+      } catch (const std::exception&) {
+      }
+    }
+    VFAIL(cat(clause, clean_ok ? ":depends-on-incoming-errno" : ""), "parse_size(\"", text, "\") threw ", typeid(e).name(), ": ", e.what(), errno_note(en), clean_ok ? "; the same call returns when errno is 0 on entry" : "");
+  }
+}
+
 // case: n = [size, include_bytes]
 static void run_size(const Case& c) {
   uint64_t s = c.u(0);
   bool ib = c.u(1) != 0;
+  uint64_t en = opt(c, 2);
   std::string text;
   try {
+    ambient(en);
     text = phosg::format_size(s, ib);
   } catch (const std::exception& e) {
-    VFAIL("size-throws", "format_size(", s, ", ", ib, ") threw ", typeid(e).name());
+    VFAIL("size-throws", "format_size(", s, ", ", ib, ") threw ", typeid(e).name(), errno_note(en));
   }
-  std::string what = cat("format_size(", s, ", ", ib ? "true" : "false", ") = \"", text, "\"");
+  std::string what = cat("format_size(", s, ", ", ib ? "true" : "false", ") = \"", text, "\"", errno_note(en));
   if (s < 1024) {
     VCHECK(text == cat(s, " bytes"), "size-bytes-form", what);
-    uint64_t back = phosg::parse_size(text.c_str());
+    uint64_t back = parse_checked(text, en, "size-parse-throws");
     VCHECK(back == s, "size-parse-bytes", what, " parse_size gives ", back);
     return;
   }
@@ -329,7 +509,7 @@ static void run_size(const Case& c) {
   u128 a = static_cast<u128>(m100) * unit, b = static_cast<u128>(s) * 100;
   u128 diff = a > b ? a - b : b - a;
   VCHECK((diff << 23) <= (unit << 22) + b, "size-mantissa-value", what, " mantissa is not the size to the printed precision");
-  uint64_t back = phosg::parse_size(text.c_str());
+  uint64_t back = parse_checked(text, en, "size-parse-throws");
   if (ib) {
     VCHECK(back == s, "size-parse-include-bytes", what, " parse_size gives ", back, " (the leading byte count is what it reads)");
   } else if (k == 6 && m100 == 1600) {
@@ -379,8 +559,10 @@ static void enum_size(Enum& e) {
   v.erase(std::unique(v.begin(), v.end()), v.end());
   for (size_t i = 0; i < v.size() && !e.stop; i++) {
     if (!e.mine(i)) continue;
-    e.exec(Case("size").N(v[i]).N(0));
-    e.exec(Case("size").N(v[i]).N(1));
+    for (uint64_t en : {0, ERANGE, EINVAL, EINTR}) {
+      e.exec(Case("size").N(v[i]).N(0).N(en));
+      e.exec(Case("size").N(v[i]).N(1).N(en));
+    }
   }
   // every size up to 4 MiB + a bit (all KB mantissas, the KB->MB hand-over)
   uint64_t lim = e.thorough() ? (5ULL << 20) : (1100ULL << 10);
@@ -388,10 +570,10 @@ static void enum_size(Enum& e) {
   for (uint64_t s0 = 0; s0 < lim && !e.stop; s0 += block) {
     if (!e.mine(s0 / block)) continue;
     for (uint64_t s = s0; s < s0 + block; s++) {
-      e.exec(Case("size").N(s).N((s >> 3) & 1));
+      e.exec(Case("size").N(s).N((s >> 3) & 1).N(errno_for(s)));
     }
   }
-  e.complete(cat(v.size(), " boundary sizes (1024^k +-3 for k=1..6, mantissa rounding corners x.995 / 1023.995 of every unit, 2^k and 2^k+-1, the 16.00 EB edge) x both include_bytes; every size below ", lim));
+  e.complete(cat(v.size(), " boundary sizes (1024^k +-3 for k=1..6, mantissa rounding corners x.995 / 1023.995 of every unit, 2^k and 2^k+-1, the 16.00 EB edge) x both include_bytes x incoming errno {0, ERANGE, EINVAL, EINTR}; every size below ", lim, " (incoming errno rotating over 10 values)"));
 }
 
 static Case gen_size() {
@@ -415,10 +597,10 @@ static Case gen_size() {
     case 3: s = vg::interesting64(); break;
     default: s = (1ULL << (10 * (1 + vg::below(6)))) * (1 + vg::below(1023)) + vg::below(3) - 1; break;
   }
-  return Case("size").N(s).N(vg::below(2));
+  return Case("size").N(s).N(vg::below(2)).N(gen_errno());
 }
 
-// case: n = [integer part, fraction digits (count 0..6), fraction value, unit 0..6, style bits]
+// case: n = [integer part, fraction digits (count 0..6), fraction value, unit 0..6, style bits, incoming errno]
 //   style: bit0 lower-case unit letter, bit1 omit the B, bit2 lower-case b, bits 3-4 number of spaces before the unit
 static void run_parse_size(const Case& c) {
   uint64_t ip = c.u(0), fd = c.u(1), fv = c.u(2), k = c.u(3), style = c.u(4);
@@ -436,12 +618,13 @@ static void run_parse_size(const Case& c) {
   text += std::string((style >> 3) & 3, ' ');
   if (k) text += static_cast<char>((style & 1) ? tolower(kUnitLetters[k]) : kUnitLetters[k]);
   if (!(style & 2)) text += (style & 4) ? 'b' : 'B';
-  uint64_t got = phosg::parse_size(text.c_str());
+  uint64_t en = opt(c, 5);
+  uint64_t got = parse_checked(text, en, "parse-size-throws");
   // the fraction is accumulated in double: allow 1 byte + 2^-49 of the unit
   u128 tol = 1 + (unit >> 49);
   u128 g = got;
   u128 diff = g > exact_floor ? g - exact_floor : exact_floor - g;
-  VCHECK(diff <= tol, cat("parse-size-value:", k ? std::string(1, kUnitLetters[k]) : std::string("bytes")), "parse_size(\"", text, "\") = ", got, " expected ", static_cast<uint64_t>(exact_floor), " (+-", static_cast<uint64_t>(tol), ")");
+  VCHECK(diff <= tol, cat("parse-size-value:", k ? std::string(1, kUnitLetters[k]) : std::string("bytes")), "parse_size(\"", text, "\") = ", got, " expected ", static_cast<uint64_t>(exact_floor), " (+-", static_cast<uint64_t>(tol), ")", errno_note(en));
   if (k && (fd || ip > 1)) ctx().nontrivial_case();
 }
 
@@ -453,15 +636,17 @@ static void enum_parse_size(Enum& e) {
       for (uint64_t style = 0; style < 32; style++, idx++) {
         if (!e.mine(idx)) continue;
         if (k == 0 && (style & 1)) continue;
-        e.exec(Case("parse_size").N(ip).N(0).N(0).N(k).N(style));
-        for (uint64_t f : {0ULL, 1ULL, 5ULL, 25ULL, 50ULL, 75ULL, 99ULL}) e.exec(Case("parse_size").N(ip).N(2).N(f).N(k).N(style));
-        for (uint64_t f : {0ULL, 5ULL, 9ULL}) e.exec(Case("parse_size").N(ip).N(1).N(f).N(k).N(style));
-        e.exec(Case("parse_size").N(ip).N(6).N(999999).N(k).N(style));
-        e.exec(Case("parse_size").N(ip).N(3).N(125).N(k).N(style));
+        for (uint64_t en : {0, ERANGE, EINVAL, EILSEQ, EINTR}) {
+          e.exec(Case("parse_size").N(ip).N(0).N(0).N(k).N(style).N(en));
+          for (uint64_t f : {0ULL, 1ULL, 5ULL, 25ULL, 50ULL, 75ULL, 99ULL}) e.exec(Case("parse_size").N(ip).N(2).N(f).N(k).N(style).N(en));
+          for (uint64_t f : {0ULL, 5ULL, 9ULL}) e.exec(Case("parse_size").N(ip).N(1).N(f).N(k).N(style).N(en));
+          e.exec(Case("parse_size").N(ip).N(6).N(999999).N(k).N(style).N(en));
+          e.exec(Case("parse_size").N(ip).N(3).N(125).N(k).N(style).N(en));
+        }
       }
     }
   }
-  e.complete("integer parts {0,1,2,9,10,15,512,1023,1024} x fractions {none, .0-.99 samples, .d, .125, .999999} x units {none,K,M,G,T,P,E} x {upper,lower} x {B,b,none} x 0-3 spaces");
+  e.complete("integer parts {0,1,2,9,10,15,512,1023,1024} x fractions {none, .0-.99 samples, .d, .125, .999999} x units {none,K,M,G,T,P,E} x {upper,lower} x {B,b,none} x 0-3 spaces x incoming errno {0, ERANGE, EINVAL, EILSEQ, EINTR}");
 }
 
 static Case gen_parse_size() {
@@ -469,7 +654,7 @@ static Case gen_parse_size() {
   uint64_t k = vg::below(7), fd = vg::below(7);
   uint64_t max_ip = (k == 6) ? 14 : (k == 0 ? (1ULL << 62) : ((1ULL << (63 - 10 * k)) - 1));
   uint64_t ip = vg::coin() ? vg::below(std::min<uint64_t>(max_ip, 2000) + 1) : vg::u64() % (max_ip + 1);
-  return Case("parse_size").N(ip).N(fd).N(vg::below(pow10[fd])).N(k).N(vg::below(32));
+  return Case("parse_size").N(ip).N(fd).N(vg::below(pow10[fd])).N(k).N(vg::below(32)).N(gen_errno());
 }
 
 // ---------------------------------------------------------------- timeval
@@ -533,6 +718,7 @@ int main(int argc, char** argv) {
 #else
   checks.push_back({"duration", run_duration, gen_duration, 100000, 2000000, 100, enum_duration});
   checks.push_back({"time", run_time, gen_time, 60000, 1000000, 100, enum_time});
+  checks.push_back({"time_seq", run_time_seq, gen_time_seq, 30000, 300000, 100, enum_time_seq});
   checks.push_back({"size", run_size, gen_size, 60000, 1000000, 100, enum_size});
   checks.push_back({"parse_size", run_parse_size, gen_parse_size, 30000, 300000, 100, enum_parse_size});
   checks.push_back({"timeval", run_timeval, gen_timeval, 30000, 300000, 100, enum_timeval});
